@@ -78,6 +78,11 @@ var c03Layouts = []cookieLayout{
 	{"next-to-bare-token", func(s string) []string { return []string{"Cookie: a=1; justatoken; " + s} }, [][2]string{{"a", "1"}}},
 	{"trailing-semicolon", func(s string) []string { return []string{"Cookie: a=1; " + s + ";"} }, [][2]string{{"a", "1"}}},
 	{"next-to-backslash-value", func(s string) []string { return []string{`Cookie: a=1; p=C:\dir; ` + s} }, [][2]string{{"a", "1"}}},
+	// an application cookie set for two paths: the browser sends the name twice (on one line, or on two)
+	{"same-name-twice", func(s string) []string {
+		return []string{"Cookie: basket=site-1; " + s + "; basket=checkout-2; lang=en"}
+	}, [][2]string{{"basket", "site-1"}, {"basket", "checkout-2"}, {"lang", "en"}}},
+	{"same-name-on-two-lines", func(s string) []string { return []string{"Cookie: track=host-1; " + s, "Cookie: track=parent-2"} }, [][2]string{{"track", "host-1"}, {"track", "parent-2"}}},
 }
 
 // layouts with a malformed piece: the upstream may or may not receive something for that piece
